@@ -260,3 +260,50 @@ def c04_monitor(spec, rec, cfg, user_steps):
                 break
             prev = m["ts_recv"][j]
     return out, stats
+
+
+def c03_wallclock_monitor(spec, rec, eps=1e-6):
+    """C03 on a wall-clock record (measured times): exactly-once / in-order, received no earlier than sent, non-blocking policy in both
+    directions on the recorded stamps (the consuming step started at or after the arrival - strictly after if skipped - and the step
+    before it had already started before the arrival), gap-free non-overlapping steps."""
+    out = []
+    stats = dict(msgs=0, waited=0)
+    for nd in spec["nodes"]:
+        n = nd["name"]
+        r = rec[n]
+        if r["seq"] != list(range(r["n"])):
+            out.append(("node_seq", f"wall clock: node {n}: step sequence numbers are not 0..{r['n']-1}: {r['seq'][:12]}"))
+        for j in range(r["n"] - 1):
+            if r["ts_end"][j] > r["ts_start"][j + 1] + eps:
+                out.append(("node_overlap", f"wall clock: node {n}: step {j} ends at {r['ts_end'][j]} after step {j+1} starts at {r['ts_start'][j+1]}"))
+                break
+    for c in spec["conns"]:
+        dst = rec[c["dst"]]
+        m = dst.get("messages", {}).get(c["src"])
+        if m is None:
+            continue
+        k = len(m["seq_out"])
+        if m["seq_out"] != list(range(k)):
+            out.append(("exactly_once", f"wall clock: connection {c['src']}->{c['dst']}: consumed messages are not 0..{k-1} in order: {m['seq_out'][:12]}"))
+            continue
+        if any(m["seq_in"][j] > m["seq_in"][j + 1] for j in range(k - 1)):
+            out.append(("exactly_once", f"wall clock: connection {c['src']}->{c['dst']}: consuming steps are not monotone"))
+        for j in range(k):
+            stats["msgs"] += 1
+            if m["ts_recv"][j] < m["ts_sent"][j] - eps:
+                out.append(("causal", f"wall clock: connection {c['src']}->{c['dst']}: message {j} received at {m['ts_recv'][j]} before it was sent at {m['ts_sent'][j]}"))
+                break
+            si = m["seq_in"][j]
+            if si >= dst["n"] or c["blocking"]:
+                continue
+            start, recv = dst["ts_start"][si], m["ts_recv"][j]
+            if start < recv - eps or (c["skip"] and start <= recv - eps):
+                out.append(("policy_nonblocking", f"wall clock: connection {c['src']}->{c['dst']}: message {j} (received {recv}) consumed by step {si} which started before it arrived ({start})"))
+                break
+            if si > 0:
+                stats["waited"] += 1
+                if dst["ts_start"][si - 1] > recv + eps:
+                    out.append(("policy_nonblocking", f"wall clock: connection {c['src']}->{c['dst']}: message {j} (received {recv}) consumed by step {si} (start {start}) although step {si-1} "
+                                f"started at {dst['ts_start'][si-1]}, after the arrival: not the first step starting at or after it"))
+                    break
+    return out, stats
